@@ -61,6 +61,11 @@ def main():
     wt = "/tmp/vwt-" + name
     tmp = "/tmp/vtmp-" + name
     res = {"seed": seed, "property": prop, "started": time.strftime("%H:%M:%S")}
+    recheck = "--recheck" in sys.argv
+    if recheck:
+        # only step 5 again (after a check was strengthened); steps 1-4 keep their recorded outcome
+        res = json.load(open(os.path.join(seed, "verify.json")))
+        res.setdefault("checks_history", []).append(res.get("checks"))
     subprocess.run("git -C /repo worktree remove --force %s" % wt, shell=True, stdout=subprocess.DEVNULL, stderr=subprocess.DEVNULL)
     shutil.rmtree(wt, ignore_errors=True)
     shutil.rmtree(tmp, ignore_errors=True)
@@ -69,6 +74,21 @@ def main():
     rc, out = sh("git -C /repo worktree add -q --detach %s HEAD" % wt, "/")
     if rc != 0:
         res["error"] = "worktree: " + out
+        return finish(seed, res, wt, tmp)
+    if recheck:
+        try:
+            rc, out = sh("git apply -3 %s" % os.path.join(seed, "patch.diff"), wt)
+            if rc != 0:
+                res["error"] = "recheck: patch does not apply: " + out[-300:]
+                return finish(seed, res, wt, tmp)
+            res["checks"] = {}
+            for c in checks:
+                t0 = time.time()
+                rc, out = sh("./check %s quick" % c, "/verif", timeout=3600, env=dict(env, VERIF_REPO=wt))
+                keys = re.findall(r"^  key=(\S+)", out, re.M)
+                res["checks"][c] = {"exit": rc, "caught": rc == 1, "keys": keys, "seconds": round(time.time() - t0), "output": out[-1500:]}
+        except subprocess.TimeoutExpired as e:
+            res["error"] = "timeout: %s" % e
         return finish(seed, res, wt, tmp)
     try:
         files, dests, cmd = parse_demo(seed)
